@@ -902,11 +902,6 @@ def _refresh_elementwise_output_shape(node: ir.Node) -> None:
     src = _elementwise_shape_source(ins)
     if src is None:
         return
-    if _op_type(node) in {"Cast", "CastLike", "Not"}:
-        # These ops can change dtype; keep existing dtype metadata untouched.
-        _copy_shape_only(outs[0], src)
-    else:
-        _copy_shape_dtype(outs[0], src)
     candidate_shapes: List[Tuple[Any, ...]] = []
     for iv in ins:
         if iv is None:
@@ -922,6 +917,13 @@ def _refresh_elementwise_output_shape(node: ir.Node) -> None:
     merged = _broadcast_shape_dims(candidate_shapes)
     if merged is None:
         return
+    # Decide first, write afterwards: nothing is copied from the source operand
+    # unless the broadcast of ALL operand shapes is known.
+    if _op_type(node) in {"Cast", "CastLike", "Not"}:
+        # These ops can change dtype; keep existing dtype metadata untouched.
+        _copy_shape_only(outs[0], src)
+    else:
+        _copy_shape_dtype(outs[0], src)
     out = outs[0]
     if _shape_dims_key(out.shape) == _shape_dims_key(merged):
         return
